@@ -1,0 +1,84 @@
+//go:build verif
+
+// Contracts for the style registry (property C13, style part), read by /verif/engine (govc).
+// Comments only: with or without the build tag this file adds no code to the package.
+//
+// C13 (styles): every style id the library's helpers put into a document body is defined in the style
+// registry of that document, and the styles part of a saved package is generated from that registry
+// (pkg/document/zz_contracts_verif_io.go: serializeStyles). This file states the registry side:
+//   * styRegOK: every registered style is a non-nil object registered under its own id (so the w:styleId
+//     written for it is the key the body refers to);
+//   * the constructor registers the ids the helpers emit (Normal, Heading1..Heading9, Quote, CodeBlock, the
+//     TOC ids "12".."21", the table styles "a1"/"ab", ...);
+//   * AddStyle / CreateCustomStyle / RemoveStyle change exactly the entry of the id they are given and keep
+//     styRegOK. RemoveStyle can remove a predefined id a helper still emits: the helpers therefore look the id
+//     up at the time of the call (AddHeadingParagraph) or are recorded as findings (see the report).
+package style
+
+//@ spec styRegOK(sm *StyleManager) bool = sm != nil && sm.styles != nil && (forall k string :: {has(sm.styles, k)} has(sm.styles, k) ==> sm.styles[k] != nil && sm.styles[k].StyleID == k)
+
+// styOthersKept(sm, id): every entry other than `id` of sm's registry, and every other registry, is as it was.
+//@ spec styHeadings(sm *StyleManager) bool = has(sm.styles, "Heading1") && has(sm.styles, "Heading2") && has(sm.styles, "Heading3") && has(sm.styles, "Heading4") && has(sm.styles, "Heading5") && has(sm.styles, "Heading6") && has(sm.styles, "Heading7") && has(sm.styles, "Heading8") && has(sm.styles, "Heading9")
+//@ spec styTOCIds(sm *StyleManager) bool = has(sm.styles, "12") && has(sm.styles, "13") && has(sm.styles, "14") && has(sm.styles, "15") && has(sm.styles, "16") && has(sm.styles, "17") && has(sm.styles, "18") && has(sm.styles, "19") && has(sm.styles, "20") && has(sm.styles, "21")
+//@ spec stySpecials(sm *StyleManager) bool = has(sm.styles, "Title") && has(sm.styles, "Subtitle") && has(sm.styles, "ListParagraph") && has(sm.styles, "Emphasis") && has(sm.styles, "Strong") && has(sm.styles, "Quote") && has(sm.styles, "CodeBlock") && has(sm.styles, "CodeChar")
+//@ spec styTables(sm *StyleManager) bool = has(sm.styles, "a1") && has(sm.styles, "ab")
+
+// AddStyle (one map store under the style's own id) is inlined at its call sites: its effect is verified where it
+// is used - in the add* helpers of the constructor and in CreateCustomStyle below, whose postconditions say that
+// the style is registered under the id it carries. (A contract of its own would turn the twenty-odd calls in the
+// constructor helpers into havocs of the map heaps and triples the cost of their C17 frame obligations.)
+//@ func (*StyleManager).AddStyle
+//@ inline
+
+// RemoveStyle removes exactly the entry of the id.
+//@ func (*StyleManager).RemoveStyle
+//@ props C13
+//@ requires sm != nil
+//@ modifies map:string:*Style
+//@ ensures !has(sm.styles, styleID)
+//@ ensures forall k string :: k != styleID ==> (has(sm.styles, k) <==> old(has(sm.styles, k))) && sm.styles[k] == old(sm.styles[k])
+//@ ensures forall m map[string]*Style, k string :: m != sm.styles ==> (has(m, k) <==> old(has(m, k))) && m[k] == old(m[k])
+//@ ensures old(styRegOK(sm)) ==> styRegOK(sm)
+
+//@ func (*StyleManager).StyleExists
+//@ props C13
+//@ requires sm != nil
+//@ modifies nothing
+//@ ensures result == (sm.styles != nil && has(sm.styles, styleID))
+
+//@ func (*StyleManager).GetStyle
+//@ props C13
+//@ requires sm != nil
+//@ modifies nothing
+//@ ensures result == styleOf(sm, styleID)
+
+// CreateCustomStyle registers a fresh style object under the requested id.
+//@ func (*StyleManager).CreateCustomStyle
+//@ props C13
+//@ requires sm != nil && sm.styles != nil
+//@ modifies map:string:*Style
+//@ ensures fresh(result) && result.StyleID == styleID && result.Type == string(styleType) && result.CustomStyle
+//@ ensures has(sm.styles, styleID) && sm.styles[styleID] == result
+//@ ensures forall k string :: k != styleID ==> (has(sm.styles, k) <==> old(has(sm.styles, k))) && sm.styles[k] == old(sm.styles[k])
+//@ ensures forall m map[string]*Style, k string :: m != sm.styles ==> (has(m, k) <==> old(has(m, k))) && m[k] == old(m[k])
+//@ ensures old(styRegOK(sm)) ==> styRegOK(sm)
+
+//@ func (*StyleManager).addNormalStyle
+//@ props C13, C17
+//@ ghost B int
+//@ requires sm != nil && sm.styles != nil && above(sm.styles, B)
+//@ modifies map:string:*Style
+//@ ensures unchangedBelow(B)
+//@ ensures has(sm.styles, "Normal")
+//@ ensures forall k string :: old(has(sm.styles, k)) ==> has(sm.styles, k)
+//@ ensures forall k string :: {has(sm.styles, k)} has(sm.styles, k) ==> (old(has(sm.styles, k)) && sm.styles[k] == old(sm.styles[k])) || (sm.styles[k] != nil && sm.styles[k].StyleID == k && live(sm.styles[k]))
+
+//@ func (*StyleManager).addTableStyles
+//@ props C13, C17
+//@ ghost B int
+//@ requires sm != nil && sm.styles != nil && above(sm.styles, B)
+//@ modifies map:string:*Style
+//@ ensures unchangedBelow(B)
+//@ ensures styTables(sm)
+//@ ensures forall k string :: old(has(sm.styles, k)) ==> has(sm.styles, k)
+//@ ensures forall k string :: {has(sm.styles, k)} has(sm.styles, k) ==> (old(has(sm.styles, k)) && sm.styles[k] == old(sm.styles[k])) || (sm.styles[k] != nil && sm.styles[k].StyleID == k && live(sm.styles[k]))
